@@ -65,10 +65,16 @@ type readersOut struct {
 
 func onceTarget(t string) bool { return t == tGzip || t == tZip || t == tDownload }
 
+// once: the scenario publishes sp.Rounds distinct destinations once each (readers see
+// absent -> new) instead of alternating two contents on one destination.
+func once(sp caseSpec) bool {
+	return onceTarget(sp.Target) || (sp.Target == tFstree && sp.Variant == "newdir")
+}
+
 // readerWorlds returns the destination(s) the readers poll: one for the alternating
 // targets, sp.Rounds resources for the publish-once targets.
 func readerWorlds(sp caseSpec, dir string) []*world {
-	if !onceTarget(sp.Target) {
+	if !once(sp) {
 		return []*world{buildWorld(sp, dir)}
 	}
 	var ws []*world
@@ -199,6 +205,10 @@ func readersChild(w *world) {
 	ws[0].setup()
 	for _, x := range ws[1:] {
 		x.reg = ws[0].reg
+		x.fst = ws[0].fst
+		if sp.Target == tFstree {
+			continue
+		}
 		switch sp.Target {
 		case tGzip:
 			writeRaw(x.archive, gzipBytes(x.new), 0o644)
@@ -211,7 +221,7 @@ func readersChild(w *world) {
 	if onceTarget(sp.Target) {
 		ws[0].reg.SelectVersions()
 	}
-	mustExist := !onceTarget(sp.Target)
+	mustExist := !once(sp)
 	out := readersOut{Target: sp.Target, MustExist: mustExist}
 
 	var stopFlag atomic.Bool
@@ -246,7 +256,7 @@ func readersChild(w *world) {
 		}
 	}
 	// writer (main goroutine)
-	if onceTarget(sp.Target) {
+	if once(sp) {
 		if sp.Target == tZip {
 			out.Writes = len(ws)
 			if err := ws[0].runOp(); err != nil {
@@ -310,13 +320,15 @@ func readerProcMain(dir string) {
 	ws := readerWorlds(sp, dir)
 	if sp.Target == tFstree {
 		if fst, err := fstree.NewFSTree("c17", filepath.Join(ws[0].sb, "db")); err == nil {
-			ws[0].fst = fst
+			for _, x := range ws {
+				x.fst = fst
+			}
 		}
 	}
 	stopFile := filepath.Join(dir, "stop")
 	_ = os.WriteFile(filepath.Join(dir, "reader-proc.started"), []byte("x"), 0o644)
 	n := 0
-	st := readLoop(ws, !onceTarget(sp.Target), func() bool {
+	st := readLoop(ws, !once(sp), func() bool {
 		n++
 		if n%8 != 0 {
 			return false
